@@ -248,8 +248,13 @@ func accView(a *accessory.Accessory) string {
 	return fmt.Sprintf("%d{%s}", a.ID, strings.Join(ss, ";"))
 }
 
+// planRefusedAuto: adds of an accessory without an id of its own that the last runPlan saw refused (runPlan is called
+// from one goroutine)
+var planRefusedAuto []string
+
 // runPlan executes the operations on the real container and prints outcomes | listed indices | every object.
 func runPlan(p idPlan, pool []*accessory.Accessory) (string, *accessory.Container) {
+	planRefusedAuto = nil
 	cont := accessory.NewContainer()
 	var outs []string
 	for _, o := range p.Ops {
@@ -258,7 +263,11 @@ func runPlan(p idPlan, pool []*accessory.Accessory) (string, *accessory.Containe
 			continue
 		}
 		if o.Add {
+			auto := pool[o.K].ID == 0
 			if err := cont.AddAccessory(pool[o.K]); err != nil {
+				if auto {
+					planRefusedAuto = append(planRefusedAuto, fmt.Sprintf("operation %d: AddAccessory of object %d (id left to the container): %v", len(outs), o.K, err))
+				}
 				outs = append(outs, fmt.Sprintf("dup%d", pool[o.K].ID))
 			} else {
 				outs = append(outs, "ok")
@@ -564,6 +573,9 @@ func checkC14(c *Ctx) {
 			rejected++
 		}
 		// direct oracles on the objects
+		for _, p := range planRefusedAuto {
+			c.Violate("an accessory that leaves its id to the container is refused (and NewIPTransport drops it without a word)", k.id, k.plan, "added, with an id no other accessory of the container has", p)
+		}
 		for _, p := range idProblems(cont) {
 			c.Violate("attribute database ids: "+p, k.id, k.plan, "unique non-zero ids", p+" — "+trunc(impl, 400))
 		}
@@ -748,7 +760,9 @@ func c14Renumber(c *Ctx) {
 		func(i accessory.Info) *accessory.Accessory { return accessory.NewSwitch(i).Accessory },
 		func(i accessory.Info) *accessory.Accessory { return accessory.NewLightbulb(i).Accessory },
 		func(i accessory.Info) *accessory.Accessory { return accessory.NewOutlet(i).Accessory },
-		func(i accessory.Info) *accessory.Accessory { return accessory.NewThermostat(i, 20, 10, 30, 1).Accessory },
+		func(i accessory.Info) *accessory.Accessory {
+			return accessory.NewThermostat(i, 20, 10, 30, 1).Accessory
+		},
 		func(i accessory.Info) *accessory.Accessory { return accessory.NewTelevision(i).Accessory },
 	}
 	for i := 0; i < c.Pick(60, 3000); i++ {
@@ -947,6 +961,9 @@ func c14Transport(c *Ctx) {
 			if r.Intn(6) == 0 {
 				explicit[k] = uint64(20 + k)
 			}
+			if i%2 == 1 && r.Intn(4) == 0 {
+				explicit[k] = uint64(1 + r.Intn(n+2)) // small: likely to be the number an automatic id would get, or given twice
+			}
 		}
 		build := func() []*accessory.Accessory {
 			out := []*accessory.Accessory{ctors[3](accessory.Info{Name: "Bridge"})}
@@ -964,22 +981,44 @@ func c14Transport(c *Ctx) {
 		}
 		ref := build()
 		cont := accessory.NewContainer()
+		var refErr error
 		for _, a := range ref {
-			cont.AddAccessory(a)
+			auto := a.ID == 0
+			if err := cont.AddAccessory(a); err != nil {
+				if auto {
+					c.Violate("an accessory that leaves its id to the container is refused (and NewIPTransport drops it without a word)", id, map[string]interface{}{"bridged_accessories": n, "explicit_ids": explicit}, "added", err.Error())
+				}
+				if refErr == nil {
+					refErr = err
+				}
+			}
 		}
 		in := map[string]interface{}{"bridged_accessories": n, "explicit_ids": explicit}
 		for run := 0; run < 2; run++ {
 			as := build()
 			var terr error
+			var t hc.Transport
 			msg, pan := safely(func() {
-				_, terr = hc.NewIPTransport(hc.Config{StoragePath: filepath.Join(c.ScratchDir(), fmt.Sprint("t", i))}, as[0], as[1:]...)
+				t, terr = hc.NewIPTransport(hc.Config{StoragePath: filepath.Join(c.ScratchDir(), fmt.Sprint("t", i))}, as[0], as[1:]...)
 			})
+			if refErr != nil {
+				// two accessories with one id: nothing can serve both. The transport must say so instead of serving some
+				if !pan && terr == nil {
+					c.Violate("NewIPTransport returns a transport that serves fewer accessories than it was given, and no error", id, in,
+						"an error ("+refErr.Error()+")", fmt.Sprintf("no error; %d accessories given, ids served: %v", len(as), hc.VerifAccessoryIDs(t)))
+				}
+				break
+			}
 			if pan || terr != nil {
 				c.Violate("NewIPTransport fails for a bridge of library accessories", id, in, "a transport", fmt.Sprint(msg, terr))
 				break
 			}
 			if got := ids(as); got != ids(ref) {
 				c.Violate("the accessory ids NewIPTransport assigns do not follow the order of its arguments", id, in, ids(ref)+" (a container filled in argument order)", fmt.Sprintf("%s (start %d)", got, run+1))
+				break
+			}
+			if served := hc.VerifAccessoryIDs(t); len(served) != len(as) {
+				c.Violate("NewIPTransport returns a transport that serves fewer accessories than it was given, and no error", id, in, fmt.Sprintf("%d accessories", len(as)), fmt.Sprintf("ids served: %v", served))
 				break
 			}
 		}
